@@ -191,7 +191,7 @@ def check_spend(case, ctx):
         if r['amount'] != out['value']:
             raise Violation(case, 'amount %d is not the value of the referenced output (%d)' % (r['amount'], out['value']), observed=r['amount'], expected=out['value'])
     # hash mismatch of a revealed witness script / key must be *refused* at set-up
-    if case['corr'] in ('proghash', 'witscript_bit', 'wrong_key') and typ in ('p2wpkh', 'p2wsh', 'p2wsh-script', 'p2sh-p2wpkh', 'p2sh-p2wsh') and ref_err in ('WITNESS_PROGRAM_MISMATCH',) and flags & F['WITNESS']:
+    if case['corr'] in ('proghash', 'witscript_bit', 'wrong_key') and typ in ('p2wpkh', 'p2wsh', 'p2wsh-script', 'p2wsh-codesep', 'p2sh-p2wpkh', 'p2sh-p2wsh') and ref_err in ('WITNESS_PROGRAM_MISMATCH',) and flags & F['WITNESS']:
         if 'refused' not in r and r.get('steps', 0) > 0 and r['ok']:
             raise Violation(case, 'revealed script/key does not hash to the committed program but the session was set up and ran', observed=tv)
     ref_valid = ref_err is None
